@@ -77,6 +77,33 @@ def s9_region(item):
                for en in item.entities)
 
 
+def s39_region(item):
+    """known finding S39: without optimisation, an operand of && / || that folds to a compile-time constant
+    is compared with 0 by a decider whose BOTH operands are constants; it is emitted as `signal-0 != 0`
+    (always false), so `b || <constant true>` is 0 for b = 0"""
+    if item.opts.get("optimize", True):
+        return False
+    kinds = [d[0] for d in item.decls]
+
+    def const(e):
+        if e[0] == "int":
+            return True
+        if e[0] == "var":
+            return kinds[e[1]] == "int"
+        if e[0] == "sel":
+            return False
+        return all(const(x) for x in e[1:] if isinstance(x, tuple))
+
+    def walk(e):
+        if not isinstance(e, tuple):
+            return False
+        if e[0] in ("and", "or") and any(const(x) and x[0] != "int" for x in e[1:]):
+            return True
+        return any(walk(x) for x in e[1:])
+
+    return any(walk(d[2]) for d in item.decls if d[0] in ("sig", "int"))
+
+
 def _classify_wiring(item):
     """the blueprint fails although the idealised private-network circuit built from the
     compiler's own logical edges passes: it is the known design defect S12 only if the
@@ -176,6 +203,8 @@ def check_items(prop, items, seed=0, do_search=True, per=6):
             it.status = "known:S19"
         elif ideal_ok is False and s9_region(it):
             it.status = "known:S9"
+        elif ideal_ok is False and s39_region(it):
+            it.status = "known:S39"
         elif ideal_ok and _classify_wiring(it):
             it.status = "known:S12"
         elif ideal_ok is False and s16:
